@@ -20,8 +20,8 @@ S, PS, V, PV, T2 = (0, 0), (0, 1), (1, 0), (1, 1), (2, 0)
 
 
 def instances(tier):
-    clim = dict(ClimSigs={((S, 1), (PS, 1), (V, 2)), ((V, 1),), ((S, 2),), ((V, 1), (S, 1)), ((PS, 2), (V, 1)), ((S, 1), (V, 1))},
-                ClimDims={(2, 3), (4, 2)}, ClimTs={1, 2}, ClimConsts={(), ((S, 1),), ((PS, 2),)})
+    clim = dict(ClimSigs={((S, 1), (PS, 1), (V, 2)), ((V, 1),), ((S, 2),), ((V, 1), (S, 1)), ((PS, 2), (V, 1)), ((S, 1), (V, 1)), ((S, 3), (V, 1))},
+                ClimDims={(2, 3), (4, 2)}, ClimTs={1, 2, 3}, ClimConsts={(), ((S, 1),), ((PS, 2),)})
     out = [dict(D=2, GroupNames={"B", "ROT", "FLIP", "TRIV", "FLIPX", "OPEN2", "OPEN3"}, AvgSigs={((S, 2), (V, 1)), ((PS, 1), (PV, 2)), ((T2, 1),)},
                 AvgDims={(2, 3), (2, 2)}, ModelIds={1, 2}, **clim),
            dict(D=3, GroupNames={"FLIP", "C3", "TRIV"} if tier == "quick" else {"B", "ROT", "FLIP", "C3", "TRIV", "FLIPX"},
